@@ -15,7 +15,7 @@ import (
 
 // C12 — a failing writer or a cancelled merge never yields silent success.
 const c12Rule = "case = persist or merge workload (small and 128-document-block families; built / memory-loaded / file-loaded inputs; merge buffer size from {1,2,7,64,4096,0}); " +
-	"inside each case EVERY byte offset k in [0,len(file)) is injected as 'writer accepts exactly k bytes then fails' (Segment.WriteTo and Merger.WriteTo must return a non-nil error) and EVERY k in [0,len] as " +
+	"inside each case EVERY byte offset k in [0,len(file)) is injected as 'writer accepts exactly k bytes then fails forever' and as 'the one Write call crossing byte k fails, later calls succeed' (Segment.WriteTo and Merger.WriteTo must return a non-nil error) and EVERY k in [0,len] as " +
 	"'close channel closed when the k-th byte reaches the writer' (result must be ErrClosed, or nil with the complete fault-free file and the right byte count); files > 8 KiB (block family: > 2 KiB): exhaustive within 64 bytes of " +
 	"every section/flush boundary, every 29th offset elsewhere; non-trivial = file spans >=2 buffer flushes and the fault lands strictly inside; distinct = hash of the workload text"
 
@@ -40,6 +40,24 @@ func (w *failAfter) Write(p []byte) (int, error) {
 	w.buf = append(w.buf, p[:room]...)
 	w.n += room
 	return room, errInjected
+}
+
+// failOnce fails exactly one Write call - the one during which byte k would be
+// written (a partial write up to k is accepted) - and works again afterwards.
+type failOnce struct {
+	k, n   int
+	failed bool
+}
+
+func (w *failOnce) Write(p []byte) (int, error) {
+	if !w.failed && w.n+len(p) > w.k {
+		w.failed = true
+		room := w.k - w.n
+		w.n += room
+		return room, errInjected
+	}
+	w.n += len(p)
+	return len(p), nil
 }
 
 // closeAt closes ch when the k-th byte arrives (k == 0: before anything).
@@ -161,6 +179,17 @@ func c12Prop(st *CaseStats, fam int) func(t *rapid.T) {
 				if isPanic(err) {
 					t.Fatalf("%s:\n  Segment.WriteTo of IN%d, writer failing after %d bytes: %v", desc, i, k, err)
 				}
+				// transient failure: one Write call fails, later ones succeed again
+				w1 := &failOnce{k: k}
+				err = safely("Segment.WriteTo(transiently failing writer)", func() error {
+					var e error
+					n, e = in.Seg.WriteTo(w1, nil)
+					return e
+				})
+				inner++
+				if err == nil {
+					t.Fatalf("%s:\n  Segment.WriteTo of IN%d reported success (n=%d) although one Write call of the writer failed at byte %d of %d", desc, i, n, k, len(good))
+				}
 			}
 		}
 
@@ -191,6 +220,16 @@ func c12Prop(st *CaseStats, fam int) func(t *rapid.T) {
 			}
 			if isPanic(err) {
 				t.Fatalf("%s:\n  Merger.WriteTo, writer failing after %d bytes: %v", desc, k, err)
+			}
+			w1 := &failOnce{k: k}
+			err = safely("Merger.WriteTo(transiently failing writer)", func() error {
+				var e error
+				n, e = ice.Merge(segs, drops, bufSize).WriteTo(w1, nil)
+				return e
+			})
+			inner++
+			if err == nil {
+				t.Fatalf("%s:\n  Merger.WriteTo reported success (n=%d) although one Write call of the writer failed at byte %d of %d", desc, n, k, len(good))
 			}
 		}
 		// --- close channel closed at every point ---
